@@ -451,10 +451,16 @@ def gen_overlapping(rng, tier, kinds, margin_prob=0.0, stream=None):
             # parallel faces of A - B, exactly equal support values in several directions
             if rng.random() < 0.6 or not (set(kinds) & {"hull", "mesh"}):
                 R = np.eye(3) if rng.random() < 0.5 else nw.rand_rotation(rng, rng.choice(["lattice", "random"]))
-                sz1 = [round(rng.uniform(0.4, 2.0), 2) for _ in range(3)]
-                sz2 = [round(rng.uniform(0.4, 2.0), 2) for _ in range(3)]
+                if rng.random() < 0.5:
+                    sz1 = [round(rng.uniform(0.4, 2.0), 2) for _ in range(3)]
+                    sz2 = [round(rng.uniform(0.4, 2.0), 2) for _ in range(3)]
+                    off = np.array([round(rng.uniform(-0.45, 0.45) * (a + b), 2) for a, b in zip(sz1, sz2)])
+                else:       # lattice numbers: collinear / coplanar vertices of A - B
+                    sz1 = [rng.choice([0.5, 1.0, 2.0, 4.0]) for _ in range(3)]
+                    sz2 = [rng.choice([0.5, 1.0, 2.0, 4.0]) for _ in range(3)]
+                    off = np.array([rng.choice([-1.0, -0.5, -0.25, 0.0, 0.25, 0.5, 1.0]) for _ in range(3)])
+                    off = np.clip(off, [-0.45 * (a + b) for a, b in zip(sz1, sz2)], [0.45 * (a + b) for a, b in zip(sz1, sz2)])
                 c1 = [rng.uniform(-1, 1) for _ in range(3)] if rng.random() < 0.5 else [0.0, 0.0, 0.0]
-                off = np.array([round(rng.uniform(-0.45, 0.45) * (a + b), 2) for a, b in zip(sz1, sz2)])
                 s1 = dict(kind="box", pose=nw.pose_of(R, c1), size=sz1)
                 s2 = dict(kind="box", pose=nw.pose_of(R, (np.array(c1) + R @ off).tolist()), size=sz2)
                 k1 = k2 = "box"
